@@ -73,6 +73,9 @@ def _norm1(vals):
         return 0.0
     if len(nz) == 1:
         return abs(nz[0])
+    if any(is_sym(v) for v in nz):
+        # squares of the concrete components are taken exactly (not in doubles), like the symbolic ones
+        nz = [v if is_sym(v) else SReal(symx.lift(v)) for v in nz]
     s = 0
     for v in nz:
         s = s + v * v
